@@ -1,5 +1,7 @@
 import GapicModel.Driver.Base
 import GapicModel.Model.PathHelpers
+import GapicModel.Model.ResourceVis
+import GapicModel.Model.Names
 open Lean GapicModel GapicModel.Regex
 namespace GapicModel.Driver
 
@@ -30,6 +32,51 @@ def opC19 (j : Json) : Except String Json := do
     ("parsed", jarr (paths.map fun p => kvJson (parse t segs p)))])
 
 
-def opsC19 : List (String × (Json → Except String Json)) := [("c19", opC19)]
+/-! ### C19, visibility: `Service.resource_messages` as (type, first pattern) observables and the
+helper names the client gets for them -/
+
+def optStrL (j : Json) : Except String (Option (List Char)) :=
+  match j with
+  | Json.null => pure none
+  | Json.str s => pure (some s.toList)
+  | _ => throw "expected string or null"
+
+open Model.ResourceVis in
+def resOfJson (j : Json) : Except String Res := do
+  match (← j.getArr?).toList with
+  | [Json.str t, Json.str p] => pure ⟨t.toList, p.toList⟩
+  | _ => throw "bad resource"
+
+open Model.ResourceVis in
+def opC19Vis (j : Json) : Except String Json := do
+  let files ← (← getArrL j "files").mapM fun f => do
+    let defs ← (← getArrL f "defs").mapM resOfJson
+    let all ← (← getArrL f "all").mapM fun v => do pure (← v.getStr?).toList
+    pure (File.mk defs all)
+  let msgs ← (← getArrL j "msgs").mapM fun m => do
+    let name ← getStrL m "name"
+    let fields ← (← getArrL m "fields").mapM fun f => do
+      match (← f.getArr?).toList with
+      | [a, b] => pure (Field.mk (← optStrL a) (← optStrL b))
+      | _ => throw "bad field"
+    let res ← match (← m.getObjVal? "res") with
+      | Json.null => pure none
+      | r => do pure (some (← resOfJson r))
+    pure (Message.mk name fields res)
+  let methods ← (← getArrL j "methods").mapM fun m => do
+    match (← m.getArr?).toList with
+    | [Json.str i, Json.str o, l] => pure (Method.mk i.toList o.toList (← optStrL l))
+    | _ => throw "bad method"
+  let api : Api := ⟨files, msgs⟩
+  let rs := (serviceResources api methods).eraseDups
+  let resJson (r : Res) : Json := jarr [jstr r.type, jstr r.pattern]
+  pure (Json.mkObj [
+    ("resources", jarr (rs.map resJson)),
+    ("helpers", jarr (rs.map fun r => jarr [jstr (Model.Names.toSnakeCase (shortName r.type)), jstr r.type])),
+    ("reachable", jarr (methods.map fun me => jarr [jarr ((reachable api me.input).map jstr), jarr ((reachable api me.effOutput).map jstr)])),
+    ("fuel", jnat (fuelFor api))])
+
+
+def opsC19 : List (String × (Json → Except String Json)) := [("c19", opC19), ("c19vis", opC19Vis)]
 
 end GapicModel.Driver
